@@ -73,7 +73,10 @@ pub fn build_case(data: &[u8]) -> (BuildCase, &'static str) {
     if ms == 9 {
         return steered_build_case(&mut c);
     }
-    let ls = c.u8() % 5;
+    let ls_raw = c.u8();
+    let ls = ls_raw % 5;
+    // the upper part of the level byte selects the history: related predecessor build / reuse of a warmed-up builder
+    let hs = (ls_raw / 5) as u16;
     let vs = c.u8();
     let ks = c.u8();
     let rs = c.u8();
@@ -105,7 +108,8 @@ pub fn build_case(data: &[u8]) -> (BuildCase, &'static str) {
         let keep = input.len().saturating_sub(trim).max(1);
         input.truncate(keep);
     }
-    (BuildCase::new(input, Opts { mode, level, version, mask }), fam)
+    let sel = (hs % 16) << 12 | ((vs as u16 ^ (ks as u16) << 3 ^ (rs as u16) << 5) & 0x3ff) << 2 | if hs >= 32 { 0 } else { 1 };
+    (BuildCase::new(input, Opts { mode, level, version, mask }).with_warm_sel(sel), fam)
 }
 
 fn color(c: &mut Cur) -> ColorSpec {
